@@ -15,11 +15,11 @@ func init() {
 	checks["C15"] = func(tier string) int {
 		t := gen.Build()
 		r := ev.NewRun("C15", tier, "model_checking")
-		n, full, maxSeq := 8, 5, 8_000_000
+		n, full, after, maxSeq := 8, 4, 2, 30_000_000
 		if tier == "thorough" {
-			n, full, maxSeq = 10, 6, 200_000_000
+			n, full, after, maxSeq = 10, 5, 3, 400_000_000
 		}
-		out, err := runBatch(t, "c15", strconv.Itoa(n), filepath.Join(gen.Repo, "spec", "gocc2.ebnf"), strconv.Itoa(maxSeq), strconv.Itoa(full))
+		out, err := runBatch(t, "c15", strconv.Itoa(n), filepath.Join(gen.Repo, "spec", "gocc2.ebnf"), strconv.Itoa(maxSeq), strconv.Itoa(full), strconv.Itoa(after))
 		if err != nil {
 			ev.Inconsistent("c15 explorer failed: %v", err)
 		}
@@ -34,6 +34,7 @@ func init() {
 			Samples                                                 []string
 			DistinctReductionTraces, SpecProductions, ShippedStates int
 			Capped                                                  bool
+			ContinuedAfterError                                     int
 		}
 		if err := json.Unmarshal(out, &o); err != nil {
 			ev.Inconsistent("c15 output: %v\n%s", err, out)
@@ -46,6 +47,8 @@ func init() {
 		r.Set("non_viable_one_token_extensions", o.NonViableProbes)
 		r.Set("viable_prefix_bound", n)
 		r.Set("all_sequences_bound", full)
+		r.Set("tokens_explored_after_an_offending_token_when_the_parser_reads_on", after)
+		r.Set("non_viable_prefixes_after_which_the_parser_asked_for_more_input", o.ContinuedAfterError)
 		r.Set("distinct_reduction_traces", o.DistinctReductionTraces)
 		r.Set("shipped_states", o.ShippedStates)
 		r.Set("documented_productions", o.SpecProductions)
@@ -74,7 +77,7 @@ func init() {
 			r.Violate("c15", "empty-alternative-pseudo-recovery", fmt.Sprintf("%d non-sentences accepted through the front end's own error recovery on '|' or ';', e.g. %s", o.Known, o.KnownSample),
 				map[string]any{"count": o.Known, "example": o.KnownSample})
 		}
-		r.Set("rule", "(i) product of the shipped ActionTable/GotoTable/ProductionsTable with the canonical LR(1) automaton of spec/gocc2.ebnf (read by an independent reader, \"error\"/\"empty\" ordinary terminals) over all 21 terminals and all non-terminals, to closure: same action kind, reductions by productions with equal head and body, same goto; (ii) the real front-end Parse (scripted scanner, reduce functions replaced by logging stubs) on every token sequence up to the all-sequences bound and every sequence with a viable prefix up to the viable-prefix bound (trie order): accept <=> Earley sentence, logged productions = the documented grammar's reductions; distinct = distinct reduction traces")
+		r.Set("rule", "(i) product of the shipped ActionTable/GotoTable/ProductionsTable with the canonical LR(1) automaton of spec/gocc2.ebnf (read by an independent reader, \"error\"/\"empty\" ordinary terminals) over all 21 terminals and all non-terminals, to closure: same action kind, reductions by productions with equal head and body, same goto; (ii) the real front-end Parse (scripted scanner, reduce functions replaced by logging stubs) on every token sequence up to the all-sequences bound, every viable prefix up to the viable-prefix bound and, beyond the first offending token, the continuations of bounded length where the parser actually asks for more input (a parser that returns without requesting the next token cannot depend on it), trie order: accept <=> Earley sentence, logged productions = the documented grammar's reductions; distinct = distinct reduction traces")
 		r.Assumption("semantic actions are stubbed, so acceptance is the parser's own (syntactic) verdict")
 		_ = strings.Join
 		return r.Finish(nil)
